@@ -17,6 +17,7 @@ import (
 	"net"
 	"os"
 	"strings"
+	"syscall"
 	"time"
 
 	standardaccountmanager "github.com/attestantio/dirk/services/accountmanager/standard"
@@ -337,7 +338,59 @@ permissions:
 }
 
 // Dial connects with the named credential kind.
+// Dial opens a client connection with the given credential kind.  "X@after-Y": a connection with credential X from the very
+// local address (ip:port) that a connection with credential Y used a moment ago (Y connects, makes one request, goes away).
 func (a *APIServer) Dial(ctx context.Context, cred string) (*grpc.ClientConn, error) {
+	if i := strings.Index(cred, "@after-"); i >= 0 {
+		l, err := net.Listen("tcp", "127.0.0.1:0")
+		if err != nil {
+			return nil, err
+		}
+		port := l.Addr().(*net.TCPAddr).Port
+		_ = l.Close()
+		first, err := a.dialPort(ctx, cred[i+len("@after-"):], port)
+		if err != nil {
+			return nil, err
+		}
+		cctx, cancel := context.WithTimeout(ctx, 10*time.Second)
+		_, ferr := pb.NewListerClient(first).ListAccounts(cctx, &pb.ListAccountsRequest{Paths: []string{"W1"}})
+		cancel()
+		_ = first.Close()
+		if ferr != nil {
+			return nil, fmt.Errorf("earlier connection from port %d could not make its request: %w", port, ferr)
+		}
+		time.Sleep(100 * time.Millisecond)
+		return a.dialPort(ctx, cred[:i], port)
+	}
+	return a.dialPort(ctx, cred, 0)
+}
+
+// lingerConn resets the connection on Close so that the local address can be used again at once.
+type lingerConn struct{ *net.TCPConn }
+
+func (c lingerConn) Close() error {
+	_ = c.TCPConn.SetLinger(0)
+	return c.TCPConn.Close()
+}
+
+func boundDialer(port int) func(context.Context, string) (net.Conn, error) {
+	return func(ctx context.Context, addr string) (net.Conn, error) {
+		d := net.Dialer{LocalAddr: &net.TCPAddr{IP: net.IPv4(127, 0, 0, 1), Port: port}, Control: func(_, _ string, rc syscall.RawConn) error {
+			var serr error
+			if err := rc.Control(func(fd uintptr) { serr = syscall.SetsockoptInt(int(fd), syscall.SOL_SOCKET, syscall.SO_REUSEADDR, 1) }); err != nil {
+				return err
+			}
+			return serr
+		}}
+		c, err := d.DialContext(ctx, "tcp", addr)
+		if err != nil {
+			return nil, err
+		}
+		return lingerConn{c.(*net.TCPConn)}, nil
+	}
+}
+
+func (a *APIServer) dialPort(ctx context.Context, cred string, port int) (*grpc.ClientConn, error) {
 	pool := x509.NewCertPool()
 	pool.AddCert(a.PKI.CACert)
 	pool.AddCert(a.Other.CACert) // the clients accept the server certificate of either hierarchy
@@ -347,6 +400,9 @@ func (a *APIServer) Dial(ctx context.Context, cred string) (*grpc.ClientConn, er
 		return tls.Certificate{Certificate: [][]byte{der}, PrivateKey: key}, err
 	}
 	var opts []grpc.DialOption
+	if port != 0 {
+		opts = append(opts, grpc.WithContextDialer(boundDialer(port)))
+	}
 	switch {
 	case cred == "plaintext":
 		opts = append(opts, grpc.WithTransportCredentials(insecure.NewCredentials()))
